@@ -1018,7 +1018,7 @@ class ExecHarness:
 
 def reexecute(pl: Pipeline, times: int = 3, seed: int = 0) -> list[dict]:
     """TIME STEPPING: every rank executes THE SAME DistributedGraphPartition object *times*
-    times in a row (a barrier between the steps), under a random schedule.  Whatever the
+    times in a row, NOT synchronised with the other ranks, under a random schedule.  Whatever the
     executor memoises on the partition object must not be consumed by an execution: every
     step ends normally and returns what the first step returned.  -> problems"""
     import random
@@ -1048,7 +1048,9 @@ def reexecute(pl: Pipeline, times: int = 3, seed: int = 0) -> list[dict]:
             for k in range(times):
                 steps[r][k] = execute_distributed_partition(
                     part, prgs, None, comm, input_args=dict(pl.inputs[r]))
-                comm.barrier()
+                # NO barrier between the steps: DistExecEpochs shows (all schedules of two
+                # unsynchronised consecutive executions) that none is needed; a fast rank
+                # may be a whole step ahead
             return steps[r][-1]
         return f
     res = world.run([rank_fn(r) for r in range(n)])
